@@ -200,16 +200,41 @@ def run(ctx, progs):
         b = prog.one(in_trait=BYTES, name="read_obj")
         rt = b.return_terms()
         ok = False
+        d = ""
         if len(rt) == 1:
             e = {}
             t = deep_strip(rt[0][1])
-            if match(C("Result::map", C("Bytes::read_slice", P(1), C("ByteValued::as_mut_slice", V("r")), P(2)), CLO("c")), t, e):
-                r = e["r"]
+            shape = match(C("Result::map", C("Bytes::read_slice", P(1), C("ByteValued::as_mut_slice", V("r")), P(2)), CLO("c")), t, e)
+            # identity of the object, by MIR local (two calls to zeroed() would be indistinguishable as terms)
+            filled = returned = None
+            for c in b.calls():
+                if canon(c.callee or "").endswith("ByteValued::as_mut_slice"):
+                    a0 = c.t["args"][0]
+                    if a0["k"] in ("move", "copy") and "p" not in a0["pl"]:
+                        ds = b.defs(a0["pl"]["l"])
+                        if len(ds) == 1 and ds[0][1] == "rv" and ds[0][2]["k"] == "ref" and "p" not in ds[0][2]["pl"]:
+                            filled = ds[0][2]["pl"]["l"]
+            for pos, s in b.stmts():
+                if s["k"] == "assign" and s["rv"]["k"] == "agg" and s["rv"].get("agg") == "closure":
+                    for o in s["rv"]["ops"]:
+                        if o["k"] in ("move", "copy") and "p" not in o["pl"]:
+                            returned = o["pl"]["l"]
+                            # follow one copy
+                            ds = b.defs(returned)
+                            if len(ds) == 1 and ds[0][1] == "rv" and ds[0][2]["k"] == "use" and ds[0][2]["op"]["k"] in ("move", "copy") and "p" not in ds[0][2]["op"]["pl"]:
+                                returned = ds[0][2]["op"]["pl"]["l"]
+                            elif len(ds) == 1 and ds[0][1] == "rv" and ds[0][2]["k"] == "ref" and "p" not in ds[0][2]["pl"]:
+                                returned = ds[0][2]["pl"]["l"]
+            zero = filled is not None and any(kind == "call" and canon(pl.get("callee") or "").endswith("ByteValued::zeroed") for _p, kind, pl in b.defs(filled))
+            cret = False
+            if shape:
                 cb = prog.by_id.get(e["c"][1])
                 crt = cb.return_terms()
-                _pb, lt = eff.lift(cb, deep_strip(crt[0][1])) if len(crt) == 1 else (None, None)
-                ok = lt is not None and unref(lt) == r and any(is_call(unref(d2), "ByteValued::zeroed") for _p, d2 in (b.var_defs(r[1]) if r[0] == 'var' else [(0, r)]))
-        ctx.ob("R4.5.read_obj", b.key, ok, b.where(), "read_obj = read_slice(result.as_mut_slice(), addr).map(|_| result) with result = T::zeroed(): the same object is filled and returned")
+                cr = unref(crt[0][1]) if len(crt) == 1 else ('x',)
+                cret = cr[0] == 'field' and unref(cr[1])[:2] == ('param', 1)
+            ok = shape and filled is not None and filled == returned and zero and cret
+            d = f"shape [{shape}]; local filled by read_slice = _{filled}, local returned by the closure = _{returned}; initialised by T::zeroed() [{zero}]"
+        ctx.ob("R4.5.read_obj", b.key, ok, b.where(), "read_obj = read_slice(result.as_mut_slice(), addr).map(|_| result) with result = T::zeroed(): the SAME object is filled and returned; " + d)
         for nm, fn in (("as_slice", "from_raw_parts"), ("as_mut_slice", "from_raw_parts_mut")):
             b = prog.one(in_trait="bytes::ByteValued", name=nm)
             rt = b.return_terms()
